@@ -35,7 +35,7 @@ func (P) Engine() string { return "E2" }
 func (P) Describe() harness.Description {
 	return harness.Description{
 		MustHit: []string{"half_open_timing_checked", "probe_exclusivity_checked", "open_period_checked", "transition_overlaps_other_caller"},
-		Level: "exploration",
+		Level:   "exploration",
 		Rule: "case = (one breaker of any strategy with small minimum amount and retry timeout, sequential prelude leaving it fresh / near trip / open just before its deadline / half-open with a held probe; 2-3 callers with 1-4 Entry / complete operations each; tick plan around the retry timeout). The scheduler interleaves at every atomic access of TryPass, OnRequestComplete and the transition helpers. " +
 			"History oracles stamped with event sequence numbers: (a) the multiset of listener events is a legal path from the prelude state to the final state (each transition once, correct previous state); (b) every Open->HalfOpen happens >= retry timeout after the invocation of the earliest call that could have opened the breaker for that open period; (c) with no probe number, after a passage to half-open no other request invoked afterwards is admitted and returns before the call that emits the next transition is invoked; (d) no request other than the probe is admitted wholly inside a certainly-open period. " +
 			"non-trivial = at least one transition happened while another caller was inside an operation; distinct = hash(config, ops, schedule)",
